@@ -121,6 +121,10 @@ pub fn run(prop: &str, tier: &str, seed: u64, hints: Option<&str>) {
     let hints = read_hints(hints);
     let mut rng = Rng::new(seed ^ 0x5ea7c4);
     let mut rep = Report::new(prop);
+    // safety net: an oracle calls the crate outside `guard` only where no panic is expected on any input; if such a
+    // call panics after a change to the crate, report it as a violation (with the panic's message and location)
+    // instead of dying with exit status 101
+    let escaped = std::panic::catch_unwind(std::panic::AssertUnwindSafe(|| {
     match prop {
         "C17" => c17(&mut rng, thorough, &hints, &mut rep),
         "C01" => c01(&mut rng, thorough, &hints, &mut rep),
@@ -143,6 +147,11 @@ pub fn run(prop: &str, tier: &str, seed: u64, hints: Option<&str>) {
         "C16" => c16(&mut rng, thorough, &hints, &mut rep),
         "C06" => c06(&mut rng, thorough, &hints, &mut rep),
         _ => {}
+    }
+    })).is_err();
+    if escaped {
+        let what = crate::LAST_PANIC.lock().map(|g| g.clone()).unwrap_or_default();
+        rep.violation("escaped-panic", "no public function panics inside its documented domain (the call is made without a guard because it cannot panic on the unchanged code)", &format!("oracle {} seed {} tier {}: {}", prop, seed, tier, what), "no panic", "PANIC");
     }
     rep.finish();
 }
@@ -1121,8 +1130,9 @@ macro_rules! c12_case {
             }
             if let Some(y) = o {
                 let want = fir_at(&h, &xi, t) as $t; // reduction modulo 2^bits
-                if y != want || c.get_decimate() != y {
-                    rep.violation("cic-dec-fir", "output = boxcar^N FIR modulo 2^bits", &inp, &format!("{} at t={}", want, t), &format!("{} (get_decimate {})", y, c.get_decimate()));
+                let gd = guard(|| c.get_decimate());
+                if y != want || gd != Some(y) {
+                    rep.violation("cic-dec-fir", "output = boxcar^N FIR modulo 2^bits; get_decimate() returns it", &inp, &format!("{} at t={}", want, t), &format!("{} (get_decimate {:?}, None = PANIC)", y, gd));
                     break;
                 }
                 if rate == 0 && y != *x {
@@ -1239,8 +1249,9 @@ macro_rules! c13_case {
                 }
                 Some(y) => {
                     let want = fir_at(&h, &held, t);
-                    if y as i128 != want || c.get_interpolate() != y {
-                        rep.violation("cic-int-fir", "output = boxcar^N FIR of the held input, exactly", &inp, &format!("{} at t={}", want, t), &format!("{} (get_interpolate {})", y, c.get_interpolate()));
+                    let gi = guard(|| c.get_interpolate());
+                    if y as i128 != want || gi != Some(y) {
+                        rep.violation("cic-int-fir", "output = boxcar^N FIR of the held input, exactly; get_interpolate() returns it", &inp, &format!("{} at t={}", want, t), &format!("{} (get_interpolate {:?}, None = PANIC)", y, gi));
                         break;
                     }
                     if constant && t >= c.response_length() && (y as i128) != (x0 as i128) * (r as i128).pow(NN as u32) {
